@@ -1146,6 +1146,12 @@ func (c *Conn) readAll(r io.Reader, size int) (*[]byte, error) {
 		n, err := r.Read((*pbuf)[len(*pbuf):cap(*pbuf)])
 		if n > 0 {
 			*pbuf = (*pbuf)[:len(*pbuf)+n]
+			if c.isMessageTooLarge(len(*pbuf)) {
+				// the pooled buffer can be larger than the size asked for:
+				// never return more than the limit.
+				c.Engine.BodyAllocator.Free(pbuf)
+				return nil, ErrMessageTooLarge
+			}
 		}
 		if err != nil {
 			if err == io.EOF {
